@@ -5,6 +5,14 @@ V = os.path.dirname(os.path.dirname(os.path.abspath(__file__)))
 
 # id -> (technique, level text, level note, design ref)
 CHECKS = {
+ "C01": ("bounded-exhaustive byte/character strings + proptest grammar streams against the reference VT parser's visible text (exact oracle), safety invariants on every piece, agreement of all entry points; libFuzzer target 'strip' in thorough",
+         "Generated-input search with an explicit oracle: every string up to a bounded length over one representative per byte class, plus seeded escape-rich grammar streams up to several KiB, compared with the visible text computed by an independent reference parser (valid UTF-8) and with safety invariants (sub-slice pieces, valid UTF-8 pieces, no control byte in the output) on all inputs. Agreement on everything explored; no claim beyond the bound.",
+         "Trusted: reference parser/UTF-8 decoder in harness/vcore/src/vt.rs, proptest. For malformed UTF-8 only the safety clauses and cross-entry-point agreement are asserted (the statement does not define visible text there).",
+         "DESIGN.md §3, §4-C01"),
+ "C03": ("all 2^(n-1) partitions of bounded-exhaustive and short generated inputs + proptest-generated partitions of long grammar streams; differential oracle chunked == one-shot for StripStr, StripBytes, StripStream (write/write_all) and WinconBytes",
+         "Metamorphic/differential generated-input search: the same code run on the whole input is the oracle for the code run on every partition. Exhaustive over partitions for all strings up to length 4-5 over a class alphabet; sampled partitions (incl. all-single-byte and every sequence-interior cut) for long streams.",
+         "Trusted: the one-shot run of the code under test as oracle (its correctness is C01/C07's business), reference machine only to classify cuts as non-trivial.",
+         "DESIGN.md §4-C03"),
  "C02": ("exhaustive 16x256 transition table + bounded-exhaustive byte strings + proptest grammar streams, differential against an independent reference VT500 parser; CAN/SUB metamorphic relation; clone relation; libFuzzer target 'parser' in thorough",
          "Generated-input search against an explicit reference model (R-VT, written from Williams' diagram, shares no code or table with the crate). The transition function is compared exhaustively (4096 pairs); event streams are compared on every string up to a bounded length over class representatives and on seeded grammar streams with boundary-biased parameter/intermediate/OSC-field counts. Establishes agreement on everything explored, not absence of bugs beyond the bound.",
          "Trusted: the reference parser in harness/vcore/src/vt.rs (for bytes >= 0x80 transcribed from pinned behaviour, since the docs only say 'some 8-bit codes are still supported'), proptest, rustc.",
